@@ -210,7 +210,11 @@ def v_replace(src, dst, *a, **kw):
     if c is None:
         return _replace(src, dst, *a, **kw)
     token()
-    r = _replace(src, dst, *a, **kw)
+    try:
+        r = _replace(src, dst, *a, **kw)
+    except OSError as e:
+        report("replace", c, type(e).__name__)
+        raise
     report("replace", c, "ok")
     return r
 
